@@ -42,6 +42,9 @@ NAMEFORMS = [(None, "q1"), ("s", "q1"), (None, '"Q1"'), ('"S"', '"Q1"'), ("s", '
              # names that begin with the letters of a type keyword
              (None, "array_ids"), ("Arrays", "slot_seq"), (None, "ARRAY_IDS"), ("ARRAYS", "Q1"), ("s", "ARRAY_IDS"), (None, "enum_seq"), (None, "MAP_SEQ"),
              ("sales", "order"), ("app", "cache"), ("public", "start"), ("dev", "no"), ("x", "increment"), ("x", "minvalue")]
+REJECTED = ["CREATE FUNCTION f(n int) RETURNS int AS $$ SELECT 2^n $$ LANGUAGE sql;", "CREATE TABLE tr (v int, CHECK (v ^ 2 < 100));",
+            "COMMENT ON SEQUENCE s.q IS 'it's';", "CREATE VIEW v AS SELECT a FROM src WHERE (b ^ 2) > 100;",
+            "ALTER TABLE ONLY tr ADD CONSTRAINT c CHECK (((v ^ 2.0) < 100.0));"]
 TAB_BEFORE = "CREATE TABLE tb (increment int, start int, cache int DEFAULT 3);"
 TAB_AFTER = "CREATE TABLE ta (cache int, minvalue int, maxvalue int, no int, noorder int);"
 SEQ2 = "CREATE SEQUENCE s.q2 START 7;"
@@ -94,6 +97,8 @@ def gen_cases(tier):
             cases.append({"sel": s, "voff": 6, "kcase": "upper", "ctx": "nosemi-then-semi"})
             cases.append({"sel": s, "voff": 5, "kcase": "mixed", "ctx": "noschema"})
             cases.append({"sel": s, "voff": 2, "kcase": "upper", "ctx": "twoseq"})
+            for ri in range(len(REJECTED)):
+                cases.append({"sel": s, "voff": 4, "kcase": "upper", "ctx": "rej%d" % ri})
         elif len(s) == 3:
             cases.append({"sel": s, "voff": 1, "kcase": "upper", "ctx": "between"})
         if len(s) <= 2:
@@ -198,6 +203,9 @@ def build(case):
         ddl = TAB_BEFORE + "\n" + st + "\n" + TAB_AFTER
     elif case["ctx"] == "then-alter":
         ddl = TAB_BEFORE + "\n" + st + "\n" + ALTER_AFTER
+    elif case["ctx"].startswith("rej"):
+        # directly after a statement the lexer rejects half-way (unknown symbol, unpaired quote): nothing of it may reach the sequence
+        ddl = REJECTED[int(case["ctx"][3:])] + "\n" + st
     elif case["ctx"] == "twoseq":
         ddl = SEQ2 + "\n" + st + "\n" + SEQ2.replace("q2", "q3")
     else:
@@ -237,7 +245,7 @@ def evaluate(case):
         diffs.append(diff("run", "raises", "result", r[1:3]))
     else:
         res = r[1]
-        if case["ctx"] in ("alone", "noschema"):
+        if case["ctx"] in ("alone", "noschema") or case["ctx"].startswith("rej"):
             if not same_seq(res, [exp]):
                 diffs.append(diff("sequence entity", "sequence-differs", exp, short(res)))
         elif case["ctx"] == "nosemi-then-semi":
